@@ -5,7 +5,8 @@
    the implementation's doubles up to 1e-9; region identity only depends on exact equality of the small
    integers the geometry is computed from).  Exceptions are explicit outcomes.  The SMPTE arithmetic is
    Model/TimeCode.v (verified under C12).  Also here: the values passed to the progress callback (progress_model)
-   and the two configuration decoders of ttconv/stl/config.py (decode_start_tc, decode_max_row_count).
+   and STLReaderConfiguration.parse of ttconv/stl/config.py + ttconv/config.py (decode_start_tc, decode_max_row_count,
+   decode_bool, parse_config; after the repairs fullmatch / int-not-bool / decode_bool / str-only start).
    The model follows the code after the repairs of the second phase (comment blocks skipped, text field cut at the
    first 0x8F, a paragraph is opened when there is none, VP 0 = row 1, progress division guarded) and the repair of
    the row count (a maximum row count below 1 - GSI MNR 00, max_row_count 0 or negative - is replaced by the default,
@@ -274,8 +275,12 @@ Definition progress_model (file : list Z) (cfg : config) : list Q :=
   | inl f => progress_go (S (length file)) f state0 (skipn 1024 file) 0
   end.
 
-(* ---- stl/config.py: the decoders of program_start_tc and max_row_count (STLReaderConfiguration.parse) -------------- *)
-Inductive cfg_value := VStr (t : text) | VInt (n : Z) | VBool (b : bool) | VOther.      (* a JSON value *)
+(* ---- stl/config.py + ttconv/config.py: STLReaderConfiguration.parse, field by field ---------------------------------- *)
+(* a JSON value as json.loads hands it to ModuleConfiguration.parse; VOther: a float, a list, an object *)
+Inductive cfg_value := VNull | VStr (t : text) | VInt (n : Z) | VBool (b : bool) | VOther.
+(* config_dict.get(field.name, cls.get_field_default(field)): None = the key is absent *)
+Definition dict_get (v : option cfg_value) (default : cfg_value) : cfg_value :=
+  match v with Some x => x | None => default end.
 (* value.upper() == "TCP" / "MNR": no character other than the ASCII letters upper-cases to T, C, P, M, N, R
    (checked against CPython's tables by harness/gen_c09.py) *)
 Definition upper_is (a b c : Z) (t : text) : bool :=
@@ -283,25 +288,59 @@ Definition upper_is (a b c : Z) (t : text) : bool :=
   | [x; y; z] => ((x =? a) || (x =? a + 32)) && ((y =? b) || (y =? b + 32)) && ((z =? c) || (z =? c + 32))
   | _ => false
   end.
-(* _decode_start_tc on None / a string: "TCP", or a string that starts with NN?NN?NN?NN (? any character but a
-   new-line: the DF pattern's separator group has an unescaped dot), else ValueError *)
-Definition decode_start_tc (v : option text) : start_tc + error :=
+(* re.fullmatch of NN?NN?NN?NN (since the repair "program_start_tc accepted trailing text"; formerly re.match): the
+   pattern consumes exactly eleven characters and nothing may follow - not even a new-line, which `$` would let pass *)
+Definition is_some {A} (o : option A) : bool := match o with Some _ => true | None => false end.
+Definition fullmatch_tc (sep_ok : Z -> bool) (t : text) : option label :=
+  if Nat.eqb (length t) 11 then match_tc sep_ok t else None.
+(* _decode_start_tc: None; a string that is "TCP" in any case; a string that IS NN?NN?NN?NN (? any character but a
+   new-line: the DF pattern's separator group has an unescaped dot; the NDF pattern, all colons, is a special case of
+   it), else ValueError.  A value that is not a string is a ValueError too (since the repair "program_start_tc and
+   font_stack raised AttributeError / TypeError on a value that is not a string": the type is tested before
+   value.upper()) *)
+Definition decode_start_tc (v : cfg_value) : start_tc + error :=
   match v with
-  | None => inl StNone
-  | Some t => if upper_is 84 67 80 t then inl StTCP
-              else match match_tc (fun c => negb (c =? newline)) t with
-                   | Some _ => inl (StStr t)
-                   | None => inr EValue
-                   end
+  | VNull => inl StNone
+  | VStr t => if upper_is 84 67 80 t then inl StTCP
+              else if is_some (fullmatch_tc (fun c => negb (c =? newline)) t)        (* _SMPTE_TIME_CODE_DF_PATTERN *)
+                      || is_some (fullmatch_tc (fun c => c =? colon) t)              (* or _SMPTE_TIME_CODE_NDF_PATTERN *)
+                   then inl (StStr t) else inr EValue
+  | VInt _ | VBool _ | VOther => inr EValue
   end.
-(* _decode_max_row_count: None, "MNR" in any case, an int (bool included: True is 1), else ValueError *)
-Definition decode_max_row_count (v : option cfg_value) : max_rows_cfg + error :=
+(* _decode_max_row_count: None, "MNR" in any case, an int that is not a bool (since the repair "max_row_count accepted
+   true and false as integers"), else ValueError *)
+Definition decode_max_row_count (v : cfg_value) : max_rows_cfg + error :=
   match v with
-  | None => inl MrNone
-  | Some (VStr t) => if upper_is 77 78 82 t then inl MrMNR else inr EValue
-  | Some (VInt n) => inl (MrInt n)
-  | Some (VBool b) => inl (MrInt (if b then 1 else 0))
-  | Some VOther => inr EValue
+  | VNull => inl MrNone
+  | VStr t => if upper_is 77 78 82 t then inl MrMNR else inr EValue
+  | VInt n => inl (MrInt n)
+  | VBool _ | VOther => inr EValue
+  end.
+(* ttconv.config.decode_bool (disable_fill_line_gap, disable_line_padding since the repair "fields documented as
+   true | false accepted any JSON value by truthiness"): a JSON boolean; everything else - an explicit null included -
+   is a ValueError *)
+Definition decode_bool (v : cfg_value) : bool + error :=
+  match v with VBool b => inl b | _ => inr EValue end.
+(* ModuleConfiguration.parse for STLReaderConfiguration: validate() never raises (every field is Optional or has a
+   default); the fields are decoded in declaration order - disable_fill_line_gap (default False), program_start_tc
+   (None), disable_line_padding (False), font_stack (None; absent here: parse_font_families is C19's), max_row_count
+   (None) - and the first decoder that raises ends the parse *)
+Definition parse_config (fill start pad rows : option cfg_value) : config + error :=
+  match decode_bool (dict_get fill (VBool false)) with
+  | inr e => inr e
+  | inl nofill =>
+      match decode_start_tc (dict_get start VNull) with
+      | inr e => inr e
+      | inl st =>
+          match decode_bool (dict_get pad (VBool false)) with
+          | inr e => inr e
+          | inl nopad =>
+              match decode_max_row_count (dict_get rows VNull) with
+              | inr e => inr e
+              | inl r => inl (mkConfig st r nofill nopad None)
+              end
+          end
+      end
   end.
 
 Definition finish (f : datafile) (cfg : config) (s : state) : sdoc :=
